@@ -134,8 +134,11 @@ def main():
             if n in b:
               acc.setdefault(n, []).append(metric(mname, b[n], a[n]))
         valok, iszero, names = [], [], []
+        common_names = set(ref_names) & set(tgt_names)
         for g in groups.values():
           for n, v in g.items():
+            if n not in common_names:
+              continue        # interpreter temporaries (kernel scratch buffers, uninitialised memory): not tensors of the model
             names.append(n)
             want = float(np.mean(acc[n])) if n in acc else None
             ok = want is not None and abs(float(v) - want) <= 1e-5 * max(1.0, abs(want)) + 1e-9 and float(v) >= 0.0
